@@ -29,6 +29,12 @@ REFPAT = {
     # a reference held in an explicitly redeclared attribute (SELF\\hold.item : tgtsub) - read through the redefining attribute
     'redeclared-attribute': ["#4=SHOLD(#5,'t%V',%V);", "#5=TGTSUB(%V5,7);"],
     'redeclared-attribute-backward': ["#4=TGTSUB(%V4,7);", "#5=SHOLD(#4,'t%V',%V);"],
+    # Part 21 comments around the references inside aggregates (a comment is a token separator wherever it stands)
+    'aggregate-commented-elements': ["#4=K0(DINT(%V),(#1, /* second */ #2));"],
+    'aggregate-commented-first': ["#4=K0(DINT(%V),( /* first */ #2,#1 /* behind */ ));"],
+    'select-aggregate-commented': ["#4=KS(%V,(#1, /* c */ #3),(#2, /* c */ DREAL(1.5), /* d */ #1));"],
+    'typed-select-aggregate-commented': ["#4=KT(%V,TGT_LIST((#1, /* c */ #2)));"],
+    'plain-commented': ["#4=AB2('n%V',1.5, /* ref */ #1);"],
     'none': [],
 }
 IDPAT = {
